@@ -101,7 +101,7 @@ impl Var {
 //@ name: get
 //@ as: fn get(&self) -> (r: u64)
 //@ cells: value
-//@ props: C08
+//@ props: C05 C06 C07 C08 C13
 //@ contract:
 //@|     ensures r == self.value, // [get-returns-the-logical-value]
 //@end
@@ -118,7 +118,7 @@ impl Var {
 //@ rule R8: `self.set_at < t.stabilisation_num` => `self.set_at.0 < t.stabilisation_num.0` x1
 //@ rule R8: `debug_assert!(watch.is_stale());` => `` x*
 //@ rule R8: `vx_assert(watch.is_stale());` => `` x*
-//@ props: C08 C05 C07 C06
+//@ props: C05 C06 C07 C08 C13
 //@ contract:
 //@|     requires old(self).node is Some, old(t).num_var_sets < usize::MAX,
 //@|     ensures
@@ -136,7 +136,7 @@ impl Var {
 //@ as: fn set_var_while_not_stabilising(&mut self, value: u64, t: &mut State)
 //@ cells: value
 //@ rule R5: `self.did_set_var_while_not_stabilising();` => `self.did_set_var_while_not_stabilising(t);` x1
-//@ props: C08 C07 C06
+//@ props: C05 C06 C07 C08 C13
 //@ contract:
 //@|     requires old(self).node is Some, old(t).num_var_sets < usize::MAX,
 //@|     ensures
@@ -157,7 +157,7 @@ impl Var {
 //@ rule R5: `let t = self.state.upgrade().unwrap();` => `` x1
 //@ rule R5: `self.set_var_while_not_stabilising(value);` => `self.set_var_while_not_stabilising(value, t);` x1
 //@ rule R8: `self.erased()` => `vx_weak_var(self.node_id)` x1
-//@ props: C08 C13 C07 C06
+//@ props: C05 C06 C07 C08 C13
 //@ contract:
 //@|     requires old(self).node is Some, old(t).num_var_sets < usize::MAX,
 //@|     ensures
@@ -175,7 +175,7 @@ impl Var {
 //@ name: break_rc_cycle
 //@ as: fn break_rc_cycle(&mut self)
 //@ cells: node
-//@ props: C08 C13
+//@ props: C05 C06 C07 C08 C13
 //@ contract:
 //@|     ensures
 //@|         final(self).node is None, // [the-var-lets-go-of-its-watch-node]
@@ -190,7 +190,7 @@ impl Var {
 //@ as: fn set_var_stabilise_end(&mut self, t: &mut State)
 //@ cells: value_set_during_stabilisation
 //@ rule R5: `self.set_var_while_not_stabilising(v);` => `self.set_var_while_not_stabilising(v, t);` x1
-//@ props: C08 C06
+//@ props: C05 C06 C07 C08 C13
 //@ contract:
 //@|     requires old(self).node is Some, old(t).num_var_sets < usize::MAX,
 //@|     ensures
@@ -212,7 +212,7 @@ impl Var {
 //@ rule R5: `let t = self.state.upgrade().unwrap();` => `` x1
 //@ rule R5: `self.did_set_var_while_not_stabilising();` => `self.did_set_var_while_not_stabilising(t);` x1
 //@ rule R8: `self.erased()` => `vx_weak_var(self.node_id)` x1
-//@ props: C08 C13 C07 C06
+//@ props: C05 C06 C07 C08 C13
 //@ contract:
 //@|     requires old(self).node is Some, old(t).num_var_sets < usize::MAX, forall|x: u64| call_requires(f, (x,)),
 //@|     ensures
@@ -234,7 +234,7 @@ impl Var {
 //@ rule R5: `let t = self.state.upgrade().unwrap();` => `` x1
 //@ rule R5: `self.did_set_var_while_not_stabilising();` => `self.did_set_var_while_not_stabilising(t);` x1
 //@ rule R8: `self.erased()` => `vx_weak_var(self.node_id)` x1
-//@ props: C08 C13 C07 C06
+//@ props: C05 C06 C07 C08 C13
 //@ contract:
 //@|     requires old(self).node is Some, old(t).num_var_sets < usize::MAX, forall|x: &mut u64| call_requires(f, (x,)),
 //@|     ensures
@@ -255,7 +255,7 @@ impl Var {
 //@ rule R5: `let t = self.state.upgrade().unwrap();` => `` x1
 //@ rule R5: `self.did_set_var_while_not_stabilising();` => `self.did_set_var_while_not_stabilising(t);` x1
 //@ rule R8: `self.erased()` => `vx_weak_var(self.node_id)` x1
-//@ props: C08 C13 C07 C06
+//@ props: C05 C06 C07 C08 C13
 //@ contract:
 //@|     requires old(self).node is Some, old(t).num_var_sets < usize::MAX, forall|x: &mut u64| call_requires(f, (x,)),
 //@|     ensures
@@ -324,7 +324,7 @@ impl PublicVar {
 //@ tracing: yes
 //@ rule R8: `dead_vars.push(self.internal.erased());` => `vx_forbidden();` x*
 //@ rule R8: `self.internal.break_rc_cycle();` => `vx_forbidden();` x*
-//@ props: C08
+//@ props: C08 C13
 //@ contract:
 //@|     requires rc_count(&old(self).sentinel) >= 2,
 //@|     // [dropping-a-handle-that-is-not-the-last-touches-nothing]
@@ -339,7 +339,7 @@ impl PublicVar {
 //@ panics: diverge
 //@ rule R8: `dead_vars.push(self.internal.erased());` => `dead_vars.push__reached(self.internal.erased());` x*
 //@ rule R8: `self.internal.break_rc_cycle();` => `vx_forbidden();` x*
-//@ props: C08
+//@ props: C08 C13
 //@ contract:
 //@|     requires rc_count(&old(self).sentinel) <= 1, state_alive(&old(self).internal.state),
 //@|     ensures false, // [the-last-handle-always-parks-the-variable-on-dead_vars-whatever-is-pending]  (never tears it down at once)
@@ -354,7 +354,7 @@ impl PublicVar {
 //@ panics: diverge
 //@ rule R8: `dead_vars.push(self.internal.erased());` => `vx_forbidden();` x*
 //@ rule R8: `self.internal.break_rc_cycle();` => `self.internal.break_rc_cycle__reached();` x*
-//@ props: C08
+//@ props: C08 C13
 //@ contract:
 //@|     requires rc_count(&old(self).sentinel) <= 1, !state_alive(&old(self).internal.state),
 //@|     ensures false, // [the-last-handle-after-the-state-is-gone-breaks-the-var-node-cycle]
